@@ -323,7 +323,7 @@ func ruleOffsChroma(p *Prog, r *Report) {
 		r.Fatal(err.Error())
 		return
 	}
-	for _, f := range p.LibReach(hash) {
+	for _, f := range hashPkgFns(p, hash) {
 		eachInstr(f, func(_ *ssa.BasicBlock, _ int, in ssa.Instruction) {
 			var base, idx ssa.Value
 			switch x := in.(type) {
@@ -353,4 +353,32 @@ func ruleOffsChroma(p *Prog, r *Report) {
 			r.Bad("OFFS-C", key, at, "chroma plane indexed with "+shortVal(idx)+" instead of COffset: hand-written subsampling arithmetic is only right for some ratios and origin parities")
 		})
 	}
+}
+
+// hashPkgFns: the functions reachable from the perceptual-hash entry points plus every function of the imagehash
+// packages (the average hash and the exported converters take YCbCr images too).
+func hashPkgFns(p *Prog, hash []*ssa.Function) []*ssa.Function {
+	seen := map[*ssa.Function]bool{}
+	var out []*ssa.Function
+	for _, f := range p.LibReach(hash) {
+		if !seen[f] {
+			seen[f] = true
+			out = append(out, f)
+		}
+	}
+	for _, f := range p.AllLibFns() {
+		g := f
+		for g.Parent() != nil {
+			g = g.Parent()
+		}
+		if g.Pkg == nil || !strings.Contains(g.Pkg.Pkg.Path(), "/imagehash") || len(f.Blocks) == 0 {
+			continue
+		}
+		if !seen[f] {
+			seen[f] = true
+			out = append(out, f)
+		}
+	}
+	sortFns(out)
+	return out
 }
